@@ -83,7 +83,11 @@ func (watcher *RequestWatcher) StopAll() {
 	defer watcher.requestsMapMutex.RUnlock()
 
 	for _, request := range watcher.requests {
-		request.SetProcessedTimeout()
+		// StartProcessing arbitrates between the processing loop, the TTL watcher and shutdown:
+		// a request that already has (or is getting) its verdict must not be signalled again.
+		if request.StartProcessing() {
+			request.SetProcessedTimeout()
+		}
 	}
 }
 
